@@ -243,6 +243,15 @@ def readAll (c : RCfg) (hasHeader : Bool) (modifier : Option Bool) (st : Stream)
   let (recs, s2) ← allRecords c (remaining s1 + 2) s1 []
   pure { header := getHeader s1, records := recs, warnings := readerWarnings s2 }
 
+/-- `io.TextIOWrapper` universal-newline translation (CRLF and CR become LF); this is what stands
+between an encoded byte stream and the reader.  Modelled, not verified. -/
+def univNewlines : Str → Str
+  | [] => []
+  | [c] => if c = CR then [LF] else [c]
+  | c :: c2 :: cs =>
+    if c = CR then (if c2 = LF then LF :: univNewlines cs else LF :: univNewlines (c2 :: cs))
+    else c :: univNewlines (c2 :: cs)
+
 /-- All physical rows through `get_row_simple` (the observable of the line-level theorem). -/
 def allRowsSimple (c : RCfg) : Nat → RState → List Str
   | 0, _ => []
